@@ -626,6 +626,8 @@ class PhaseField(_Simu):
         if self.phaseFieldModel.solver == self.phaseFieldModel.SolverType.History:
             # update old history field for next resolution
             self.__old_psiP_e_pg = self.__psiP_e_pg
+            # the history field is an internal variable: it belongs to the saved iteration
+            iter["psiP"] = np.asarray(self.__old_psiP_e_pg).copy()
 
         iter["displacement"] = self.displacement
         iter["damage"] = self.damage
@@ -643,6 +645,13 @@ class PhaseField(_Simu):
 
         displacementType = self.ProblemTypes.elastic
         self._Set_solutions(displacementType, results["displacement"])
+
+        if (
+            "psiP" in results
+            and self.phaseFieldModel.solver == self.phaseFieldModel.SolverType.History
+        ):
+            # bring back the history field that was current when the iteration was saved
+            self.__old_psiP_e_pg = FeArray.asfearray(np.array(results["psiP"]))
 
         # damage and displacement field will change thats why we need to update the assembled matrices
         self.__updatedDamage = False
